@@ -101,7 +101,8 @@ def program(draw):
             c['overrides']['cmd'] = {'kind': draw(st.sampled_from(['method', 'method', 'cmd-inherit-false']))}
         if draw(st.integers(0, 2)) == 0:
             # the command with a struct argument, overridden by a plain method with other default arguments
-            c['overrides']['cmd2'] = {'kind': 'method2', 'defaults': draw(st.sampled_from(['a', 'ab', '']))}
+            # ... or by a method decorated again with @Command(description=...), which inherits the struct
+            c['overrides']['cmd2'] = {'kind': draw(st.sampled_from(['method2', 'method2', 'redecorated'])), 'defaults': draw(st.sampled_from(['a', 'ab', '']))}
         if draw(st.integers(0, 2)) == 0:
             # a module property overridden by a bare value (possibly on several levels of the chain)
             c['overrides']['chan'] = {'kind': 'prop', 'value': draw(st.sampled_from([1, 2, 7]))}
@@ -245,11 +246,11 @@ class World:
                     """overriding method"""
                     return None
                 attrs['cmd'] = Command(inherit=False)(cmd) if o.get('kind') == 'cmd-inherit-false' else cmd
-            elif o['kind'] == 'method2':
+            elif o['kind'] in ('method2', 'redecorated'):
                 ns = {}
                 sig = {'a': 'a=0, b', 'ab': 'a=0, b=1', '': 'a, b'}[o['defaults']] if o['defaults'] != 'a' else 'b, a=0'
                 exec(f'def cmd2(self, {sig}):\n    "overriding method"\n    return None\n', ns)   # noqa
-                attrs['cmd2'] = ns['cmd2']
+                attrs['cmd2'] = Command(description='decorated again')(ns['cmd2']) if o['kind'] == 'redecorated' else ns['cmd2']
             elif o['kind'] == 'prop':
                 attrs['chan'] = o['value']
             elif o['kind'] == 'limit':
@@ -477,7 +478,7 @@ def execute(ctx, prog, steps, tag):
             want = ['b']      # root: def cmd2(self, a, b=1)
             for cname in reversed(chain_list(prog, step['cls'])):
                 o = byname[cname].get('overrides', {}).get('cmd2')
-                if o and o.get('kind') == 'method2':
+                if o and o.get('kind') in ('method2', 'redecorated'):
                     want = {'a': ['a'], 'ab': ['a', 'b'], '': []}.get(o.get('defaults'), want)
             cls_ = world.classes[step['cls']]
             got_cls = sorted(cls_.accessibles['cmd2'].argument.optional) if 'cmd2' in cls_.accessibles else None
